@@ -12,11 +12,11 @@ TRUSTED = "model:python-lists (comprehension over range, repetition, nb.typed.Li
 
 
 def list_comp(self, e, st, spec):
-    if len(e.generators) != 1 or e.generators[0].ifs or not isinstance(e.generators[0].target, ast.Name):
+    if len(e.generators) != 1 or e.generators[0].ifs:
         raise EngineError("list comprehension outside the modelled form")
     g = e.generators[0]
     it = g.iter
-    if not (isinstance(it, ast.Call) and ast.unparse(it.func) == "range" and len(it.args) == 1):
+    if not isinstance(g.target, ast.Name) or not (isinstance(it, ast.Call) and ast.unparse(it.func) == "range" and len(it.args) == 1):
         return self.list_comp_other(e, st, spec)
     n = self.as_index(self.ev(it.args[0], st, spec))
     i = V.fresh(g.target.id, I)
